@@ -91,6 +91,21 @@ def curve(name):
         r.simulate(t)
         r.recovery_factor()
         f = r.recovery_factor_interpolator()
+    elif name == "memo":
+        # an analytic curve that memoises by the scaled-time array it is given and hands out the array
+        # it KEEPS (a cache in the user's own code): whoever receives it may read it, not write to it
+        tt = np.concatenate([[0.0], np.logspace(-7, np.log10(60.0), 3000)])
+        vals = D.fourier_recovery(tt, n_terms=4000)
+        store = {}
+
+        def f(x):
+            x = np.asarray(x, dtype=float)
+            key = (x.shape, x.tobytes())
+            if key not in store:
+                if len(store) > 64:
+                    store.clear()
+                store[key] = np.interp(x, tt, vals)
+            return store[key]
     elif name in ("cubic-table", "extrap-table"):
         # the user's OWN interpolator objects: a thinned recovery table read with a cubic spline, and a
         # linear one that extrapolates beyond its last row (t / tau goes up to 3 and the table stops at
@@ -115,7 +130,7 @@ def generate(ck):
     for i in range(n):
         cv = ["ideal", "realgas", "fourier"][i % 3]
         if i % 7 == 3:
-            cv = ["cubic-table", "extrap-table"][(i // 7) % 2]
+            cv = ["cubic-table", "extrap-table", "memo"][(i // 7) % 3]
         M = float(10.0 ** rng.uniform(-6, 9)) if i % 5 else float(10.0 ** rng.uniform(-6, -3))
         tau = float(10.0 ** rng.uniform(-3, 5))
         base = {"curve": cv, "M": M, "tau": tau, "end": float(rng.uniform(0.6, 3.0)), "n": int(rng.integers(50, 401)), "t0": float(rng.choice([0.0, 1e-3]))}
